@@ -522,7 +522,34 @@ func addHoles(t *rapid.T, label string, loops *[][]kit.V2, c kit.V2, R float64, 
 	}
 }
 
-var families = []string{"convex", "star", "zigzag", "monotone", "comb", "spiral"}
+var families = []string{"convex", "star", "zigzag", "monotone", "comb", "spiral", "dart"}
+
+// dartOutline: a triangle A, B, C with a fourth vertex D strictly inside it inserted between A and B: the
+// quadrilateral A, D, B, C is simple and not convex (reflex at D).  The smallest polygons with a reflex vertex —
+// the case a special-cased fast path for quadrilateral faces gets wrong.  With a second interior vertex between
+// B and C it becomes a pentagon with two reflex vertices.
+func dartOutline(t *rapid.T, label string) outline {
+	a := kit.V2{0, 0}
+	b := kit.V2{gen.F(t, 0.8, 3, label+".w"), gen.F(t, -0.3, 0.3, label+".by")}
+	c := kit.V2{gen.F(t, -0.5, 3, label+".cx"), gen.F(t, 0.8, 3, label+".h")}
+	in := func(lab string, p, q, r kit.V2) kit.V2 {
+		// strictly inside the triangle, at least 10% away from every side in barycentric terms
+		u := gen.F(t, 0.1, 0.45, lab+".u")
+		v := gen.F(t, 0.1, 0.45, lab+".v")
+		return p.Scale(u).Add(q.Scale(v)).Add(r.Scale(1 - u - v))
+	}
+	pts := []kit.V2{a, in(label+".d", a, b, c), b, c}
+	if rapid.IntRange(0, 2).Draw(t, label+".penta") == 0 {
+		// second dent, kept inside the sub-triangle (B, C, centroid) so that it cannot meet the first one
+		g := a.Add(b).Add(c).Scale(1.0 / 3)
+		e := b.Scale(0.4).Add(c.Scale(0.4)).Add(g.Scale(0.2))
+		d := pts[1]
+		// the first dent must stay on the A-B side of the centroid: re-draw it inside (A, B, G)
+		d = in(label+".d2", a, b, g)
+		pts = []kit.V2{a, d, b, e, c}
+	}
+	return outline{pts: pts}
+}
 
 func genOutline(t *rapid.T, label, family string) outline {
 	switch family {
@@ -538,6 +565,8 @@ func genOutline(t *rapid.T, label, family string) outline {
 		return combOutline(t, label)
 	case "spiral":
 		return spiralOutline(t, label)
+	case "dart":
+		return dartOutline(t, label)
 	}
 	panic("unknown family " + family)
 }
@@ -548,7 +577,10 @@ var fallbackSquare = []kit.V2{{0, 0}, {1, 0}, {1, 1}, {0, 1}}
 func genSimple(t *rapid.T, label string) shape {
 	fam := rapid.SampledFrom(families).Draw(t, label+".family")
 	o := genOutline(t, label, fam)
-	pts := addRuns(t, label+".runs", o.pts, 3)
+	pts := o.pts
+	if fam != "dart" || rapid.IntRange(0, 2).Draw(t, label+".dartruns") == 0 {
+		pts = addRuns(t, label+".runs", o.pts, 3)
+	}
 	s := shape{Family: fam, Loops: [][]kit.V2{pts}}
 	if validLoops(s.Loops) != nil {
 		// the templates are simple by construction; this only triggers when a jittered spiral or a
